@@ -82,9 +82,11 @@ def sobj_getattr(ex, st, o, attr, node=None):
         key = f"{o.cls}.{attr}"
         if key in ex.registry:
             c = ex.registry[key]
+            from .core import FuncV
+            if isinstance(c, FuncV):       # method modelled directly (assumed / verified elsewhere)
+                return FuncV(lambda ex_, s, args, kw, nd, _c=c, _v=o: _c.fn(ex_, s, [_v] + list(args), kw, nd), key)
             if c.is_property:
                 return ex.call_contract(st, c, [o], {}, node)
-            from .core import FuncV
             return FuncV(lambda ex_, s, args, kw, nd, _c=c, _v=o: ex_.call_contract(s, _c, [_v] + list(args), kw, nd), key)
         raise Undecided(f"field {o.cls}.{attr} of a symbolic object is not in the schema")
     kind = sch[attr]
